@@ -18,6 +18,8 @@ import (
 
 type NStr string
 type NInt int
+type NUint8 uint8
+type NUint uint
 type NBytes []byte
 type NFloat float64
 type NBool bool
@@ -404,6 +406,16 @@ type SafeMsg2 struct {
 }
 
 func (s SafeMsg2) SafeMessage() string { return s.Msg }
+
+// BigRec is larger than 128 bytes and has a formatting method on its
+// pointer type only: a BigRec value (an element of a []BigRec, say) is
+// printed field by field.
+type BigRec struct {
+	A [20]int64
+	S string
+}
+
+func (b *BigRec) String() string { return "BIG<" + b.S + ">" }
 
 // YieldStringer gives up the processor inside its method, so that calls on
 // other goroutines run while this one is in the middle of a print.
